@@ -29,7 +29,7 @@ ASSUMPTIONS = [
 ]
 MANIFEST = {
     'level': 'exploration',
-    'technique': 'runtime monitor on the real UPDATE generator: every yielded message framed and decoded by an independent codec, conservation check (requested = union of sent, nothing else) over size-boundary workloads',
+    'technique': 'runtime monitor on the real UPDATE generator: every yielded message framed and decoded by an independent codec, conservation check (requested = union of sent, nothing else) over size-boundary workloads; a configuration of hundreds to thousands of routes with attribute sets from empty to just under the message size sent by the real exabgp process to a scripted peer: size, self-containment and completeness judged on the TCP stream',
     'text': 'Collections sized around the negotiated limits are packed by the real generator; each message is checked for size, '
     'self-contained parse and exact header length, and the union over messages for loss, invention, wrong next hop or attributes.',
     'note': 'trusted base: refwire decoder; IP unicast/labeled families; attribute sets made of communities / large communities / as-path',
@@ -39,7 +39,7 @@ SHARD_TIMEOUT = {'quick': 300, 'thorough': 2400}
 
 def plan(tier, seed):
     n = 16 if tier == 'quick' else 64
-    return [{'shard': i, 'collections': 22 if tier == 'quick' else 120} for i in range(n)]
+    return [{'shard': i, 'collections': 22 if tier == 'quick' else 120} for i in range(n)] + [{'shard': 900 + i, 'daemon': True, 'part': i, 'routes': 600 if tier == 'quick' else 3000} for i in range(2 if tier == 'quick' else 4)]
 
 
 def attr_text(r: random.Random, target_len: int):
@@ -122,7 +122,113 @@ def sweep_attributes(conf, cache: dict, L: int):
     return coll, atext, ncomm
 
 
+def run_daemon(desc):
+    """a configuration of a few thousand routes whose attribute sets leave room for many, few or hardly one NLRI per message,
+    read by the REAL daemon and sent to a scripted peer on a session with and without extended messages: every message the peer
+    receives is within the negotiated size and decodes on its own, and the table it builds is the configuration"""
+    import time
+
+    from vlib import daemon
+
+    res = Result()
+    r = random.Random(desc['seed'] * 613651349 % (2**31) + desc['part'])
+    ext = desc['part'] % 2 == 1
+    limit = 65535 if ext else 4096
+    variants = []
+    for vi, ncomm in enumerate([0, 3, 120, 600, 980, 1005]):
+        variants.append((vi, ncomm, ' '.join(f'65000:{(vi * 1009 + j) % 65536}' for j in range(ncomm))))
+    routes = {}
+    lines = []
+    n = desc['routes']
+    for i in range(n):
+        vi, ncomm, comm = variants[r.choice([0] * 8 + [1] * 7 + [2] * 2 + [3, 4, 5])]  # the community parser is quadratic: the long sets are few
+        fam6 = r.random() < 0.3
+        p = f'2001:db8:{i // 65536:x}:{i % 65536:x}::/64' if fam6 else f'10.{i // 65536}.{i // 256 % 256}.{i % 256}/32'
+        nh = '2001:db8::1' if fam6 else '192.0.2.1'
+        med = vi * 10 + i % 3
+        routes[p] = (nh, med, ncomm)
+        lines.append(f'        route {p} next-hop {nh} med {med}' + (f' community [ {comm} ]' if ncomm else '') + ';\n')
+    text = exa.neighbor_text(families=[(1, 1), (2, 1)], extmsg=ext, body='    static {\n' + ''.join(lines) + '    }\n')
+    d = daemon.Daemon(text, env={'exabgp_log_level': 'ERROR'})
+    peer = None
+    wit = {'routes': n, 'extended_messages': ext, 'level': 'daemon'}
+    cls = 'daemon:' + ('ext' if ext else 'std')
+    try:
+        d.start()
+        peer = d.accept(timeout=120)
+        peer.establish(65001)
+        rx = []
+        eors = 0
+        t_end = time.monotonic() + 120
+        while time.monotonic() < t_end and eors < 2:
+            got = peer.drain(quiet=2.0, limit=30)
+            rx += got
+            eors = sum(1 for t, b in rx if t == 2 and (bytes(b) == b'\x00\x00\x00\x00' or (len(b) == 11 and bytes(b)[:4] == b'\x00\x00\x00\x07')))
+            if any(t is None or t == 3 for t, _ in got):
+                break
+        log = d.tail(3000)
+    except daemon.Inconclusive as e:
+        daemon.skipped(res, str(e))
+        return res
+    finally:
+        try:
+            if peer is not None:
+                peer.close()
+        except Exception:  # noqa
+            pass
+        d.stop()
+    if 'exception.unhandled' in log or 'Traceback' in log:
+        res.violation('C09/daemon:unhandled-exception', 'the daemon logged an unhandled exception while sending its table: ' + log[log.find('Traceback') : log.find('Traceback') + 300], dict(wit, log=log[-2000:]), cls)
+        return res
+    table = rw.PeerTable()
+    nmsg = 0
+    for t, b in rx:
+        if t == 3:
+            res.violation(f'C09/daemon:notification:{b[0]}/{b[1]}', 'the daemon ended the session while sending its table', wit, cls)
+            return res
+        if t != 2:
+            continue
+        nmsg += 1
+        if 19 + len(b) > limit:
+            res.violation(f'C09/oversized:{limit}', f'message of {19 + len(b)} bytes exceeds the negotiated {limit} (real daemon)', dict(wit, size=19 + len(b)), cls)
+            return res
+        try:
+            dec = rw.dec_update(bytes(b), rw.sess(asn4=True, addpath=()))
+        except rw.RefError as e:
+            res.violation('C09/unparseable-message', f'a message of the real daemon does not parse on its own: {e}', dict(wit, body=bytes(b).hex()[:400]), cls)
+            return res
+        if not dec['eor']:
+            table.apply(dec)
+    got = {}
+    for key, v in table.routes.items():
+        attrs = dict(v['attrs'])
+        med = attrs.get(rw.MED)
+        comm = attrs.get(8)
+        got[key[5]] = (v['nexthop'][0] if v['nexthop'] else None, int(med) if med is not None else None, str(comm).count('(') if comm else 0)
+    sendable = {p: v for p, v in routes.items() if ext or v[2] <= 1000}
+    wit.update(messages=nmsg, peer_routes=len(got), configured=len(routes))
+    missing = sorted(set(sendable) - set(got))
+    extra = sorted(set(got) - set(routes))
+    wrong = sorted(p for p in set(got) & set(sendable) if got[p][:2] != sendable[p][:2] or (got[p][2] != sendable[p][2]))
+    if eors < 2 and missing:
+        daemon.skipped(res, f'the table was not complete after 120 s ({len(got)} of {len(sendable)} routes, {eors} End-of-RIB)')
+    elif missing:
+        res.violation('C09/daemon:route-lost', f'{len(missing)} configured routes never reached the peer, e.g. {missing[:3]} {[routes[p] for p in missing[:3]]}', dict(wit, missing=missing[:20]), cls)
+    elif extra:
+        res.violation('C09/daemon:route-invented', f'routes nobody configured: {extra[:3]}', wit, cls)
+    elif wrong:
+        res.violation('C09/daemon:route-values', f'{wrong[0]} arrived as {got[wrong[0]]}, configured {routes[wrong[0]]}', wit, cls)
+    else:
+        res.ok(cls, ('daemon', ext, n), nmsg)
+        res.ok('daemon:table')
+        if not ext:
+            res.count('daemon:over-4096-sets-not-sent', sum(1 for v in routes.values() if v[2] > 1000))
+    return res
+
+
 def run_shard(desc):
+    if desc.get('daemon'):
+        return run_daemon(desc)
     from exabgp.bgp.message.update.collection import RoutedNLRI, UpdateCollection
     from exabgp.rib.route import Route
 
@@ -401,4 +507,4 @@ def run_shard(desc):
     return res
 
 
-REQUIRED_CLASSES = {'quick': ['mp-room-sweep', 'distance:at-limit', 'distance:within8', 'distance:far', 'via:direct', 'via:rib'], 'thorough': ['distance:at-limit', 'distance:within8', 'distance:far', 'via:direct', 'via:rib']}
+REQUIRED_CLASSES = {'quick': ['daemon:table', 'mp-room-sweep', 'distance:at-limit', 'distance:within8', 'distance:far', 'via:direct', 'via:rib'], 'thorough': ['daemon:table', 'distance:at-limit', 'distance:within8', 'distance:far', 'via:direct', 'via:rib']}
